@@ -224,7 +224,10 @@ impl GraphInline {
                 if *link_type == LinkType::WikiLink {
                     return format!("[[{}]]", url);
                 }
-                if !self.is_ref() && text == *url {
+                if !self.is_ref() && url.strip_prefix("mailto:") == Some(text.as_str()) {
+                    // a mail address goes back between angle brackets
+                    format!("<{}>", text)
+                } else if !self.is_ref() && text == *url {
                     format!("<{}>", url)
                 } else if self.is_ref() {
                     format!(
